@@ -40,6 +40,7 @@ type RunParams struct {
 	HashSeed   uint32 `json:"hashseed"`
 	Probe      bool   `json:"probe"`
 	FullEvery  int    `json:"fullevery"`
+	Alt        bool   `json:"alt"`
 }
 
 // RegressItem is a program plus runner settings.
